@@ -11,7 +11,7 @@ import numpy as np  # noqa: E402
 
 PROP = "C12"
 tf = env.tf
-HEADER = ("From Coq Require Import String List Bool.\nFrom QV Require Import Convert.ModelQuantize Convert.Adaptive.\n"
+HEADER = ("From Coq Require Import String List Bool.\nFrom QV Require Import Convert.ModelQuantize Convert.Adaptive Convert.Relu.\n"
           "Open Scope string_scope. Import ListNotations.\n")
 QSTR = ["quantized_bits(4,0,1)", "quantized_bits(8,2,1)", "quantized_po2(4)", "ternary()", "binary()"]
 ASTR = ["quantized_relu(4,2)", "quantized_relu(6)", "quantized_tanh(4)", "quantized_bits(8,3,1)"]
@@ -36,6 +36,11 @@ def gen_directed(rng, idx):
   x = L.DepthwiseConv2D(3, padding="same", activation="sigmoid", use_bias=True, name=f"depthwiseconv2d_{idx}_b")(x)
   x = L.DepthwiseConv2D(3, padding="same", activation=None, use_bias=False, name=f"depthwiseconv2d_{idx}_nb")(x)
   x = L.Activation("relu", name=f"act_{idx}_relu")(x)
+  if idx % 4 != 3:
+    # Keras ReLU layers: plain, leaky (positive negative_slope) and capped; which key of a QActivation map applies depends on the slope
+    x = L.ReLU(name=f"relu_{idx}_plain")(x)
+    x = L.ReLU(max_value=6.0, negative_slope=0.125, name=f"relu_{idx}_leaky")(x)
+    x = L.ReLU(max_value=4.0, name=f"relu_{idx}_cap")(x)
   x = L.AveragePooling2D(2, name=f"pool_{idx}")(x)
   x = L.Flatten(name=f"flat_{idx}")(x)
   x = L.Dense(4, activation="softmax", use_bias=False, name=f"dense_{idx}_nb")(x)
@@ -58,6 +63,10 @@ def gen_directed_dict(rng, model, k):
     d["QActivation"] = {"relu": "quantized_relu(4,1)", "tanh": "quantized_tanh(6)"}
   elif k % 4 == 3:
     d["QActivation"] = ""
+  if k % 4 == 0:
+    # no class entry: ReLU layers selected by name only -- a string for the capped one, a map for the leaky one
+    d[f"relu_{k}_cap"] = "quantized_relu(5,2)"
+    d[f"relu_{k}_leaky"] = {"relu": "quantized_relu(3)", "leakyrelu": "quantized_relu(6,2,negative_slope=0.125)"}
   if k % 4 == 0:
     d["QAdaptiveActivation"] = "quantized_relu(6)"                                   # the only activation entry: the backup applies
   elif k % 4 == 1:
@@ -95,6 +104,13 @@ def gen_model(rng, idx):
     if rng.integers(0, 2):
       a2 = ["relu", "tanh", "sigmoid", "softmax"][int(rng.integers(0, 4))]
       x = L.Activation(a2, name=f"act_{idx}_{j}")(x)
+    rk = (idx + j) % 4      # in rotation: no ReLU layer, plain, leaky, capped
+    if rk == 1:
+      x = L.ReLU(name=f"relu_{idx}_{j}")(x)
+    elif rk == 2:
+      x = L.ReLU(negative_slope=float(rng.choice([0.0625, 0.25, 0.5])), name=f"relu_{idx}_{j}")(x)
+    elif rk == 3:
+      x = L.ReLU(max_value=float(rng.choice([1.0, 6.0])), threshold=float(rng.choice([0.0, 0.5])), name=f"relu_{idx}_{j}")(x)
   if functional:
     b1 = L.Conv2D(2, 1, padding="same", name=f"branch_a_{idx}")(x)
     b2 = L.Conv2D(2, 1, padding="same", activation="relu", name=f"branch_b_{idx}")(x)
@@ -139,14 +155,18 @@ def gen_dict(rng, model):
     cn = "Q" + type(l).__name__
     if cn in wparam and rng.integers(0, 4) == 0:
       d[l.name] = entry(cn)
-  r = rng.integers(0, 4)
+  r = rng.integers(0, 5)
   if r == 1:
     d["QActivation"] = ASTR[int(rng.integers(0, len(ASTR)))]
   elif r == 2:
     d["QActivation"] = {"relu": "quantized_relu(4,1)", "tanh": "quantized_tanh(6)"}
+  elif r == 3:
+    d["QActivation"] = {"relu": "quantized_relu(4,1)", "leakyrelu": "quantized_relu(5,1,negative_slope=0.25)", "sigmoid": ""}
   for l in model.layers:
     if type(l).__name__ == "Activation" and rng.integers(0, 5) == 0:
       d[l.name] = ASTR[int(rng.integers(0, len(ASTR)))]
+    if type(l).__name__ == "ReLU" and rng.integers(0, 3) == 0:
+      d[l.name] = [ASTR[int(rng.integers(0, 2))], {"leakyrelu": "quantized_relu(6,negative_slope=0.5)"}, {"relu": "quantized_relu(3,1)"}][int(rng.integers(0, 3))]
   r2 = rng.integers(0, 4)
   if r2 == 1:
     d["QAdaptiveActivation"] = ["quantized_relu(6)", "quantized_bits(8)"][int(rng.integers(0, 2))]
@@ -174,6 +194,9 @@ def layer_rec(cfg):
   act = c.get("activation")
   if isinstance(act, dict):
     act = json.dumps(act, sort_keys=True)
+  if cls == "ReLU":
+    # the key of a QActivation map that applies to a Keras ReLU layer: decided by the sign of its slope (independent of utils.py)
+    act = "leakyrelu" if float(c.get("negative_slope") or 0.0) > 0 else "relu"
   return cls, c["name"], bool(c.get("use_bias", False)), act, kq, c.get("bias_quantizer")
 
 
@@ -190,7 +213,7 @@ def main():
   import qkeras.utils as U
   rng = np.random.default_rng(vlib.SEED)
   rep.cov["rule"] = ("random sequential / branched Keras models (Conv2D, DepthwiseConv2D, SeparableConv2D, Dense, Activation, pooling, "
-                     "Flatten, Add) x random quantization dictionaries (per class, per layer name, partial entries, QActivation string or "
+                     "Flatten, Add, Keras ReLU layers plain / leaky / capped) x random quantization dictionaries (per class, per layer name, partial entries, QActivation string or "
                      "per-activation map) x activation_bits x transfer_weights; the JSON model_quantize hands to the loader is compared "
                      "layer by layer with the Coq function; names, shapes, weights, source model and caller dictionaries are compared "
                      "before/after. distinct = distinct (model, dictionary)")
@@ -228,6 +251,9 @@ def main():
       if selected_sep and "kernel_quantizer" in str(e):
         rep.finding("C12-separable-conv-gets-kernel-quantizer-argument",
                     f"model_quantize on a model with a selected SeparableConv2D raises {type(e).__name__}: {str(e)[:160]}", {"dict": d})
+      elif any(type(l).__name__ == "ReLU" and isinstance(d.get(l.name, d.get("QActivation")), str) and d.get(l.name, d.get("QActivation")) == "" for l in model.layers):
+        rep.finding("C12-relu-layer-empty-qactivation-entry", f"model_quantize with an empty-string QActivation entry applying to a Keras ReLU layer raises {type(e).__name__}: "
+                    f"the layer is rewritten to a QActivation without an activation ({str(e)[:120]})", {"dict": d})
       elif (isinstance(e, AssertionError) and "Only integer bits" in str(e)) or "Activation quantizer may NOT contain any parameters" in str(e):
         # the configuration is REJECTED by model_quantize (an adaptive entry with parameters): not a violation; the Coq model
         # must predict the rejection for this (dictionary, preference, model)
@@ -235,7 +261,7 @@ def main():
         for a in cfg0["config"]["layers"]:
           cls_, name_, ub_, act_, _, _ = layer_rec(a)
           lits_.append(f"(L {cs(cls_)} {cs(name_)} {vlib.blit(ub_)} {copt(act_)} None None)")
-        texts.append(f"(if model_rejected {vlib.blit(prefer)} {coq_dict(d)} [" + "; ".join(lits_) + "] then [\"REJECTED\"] else [\"accepted\"])")
+        texts.append(f"(if model_rejected_all {vlib.blit(prefer)} {coq_dict(d)} [" + "; ".join(lits_) + "] then [\"REJECTED\"] else [\"accepted\"])")
         items.append((i, d, bits, "REJECTED", [a["config"]["name"] for a in cfg0["config"]["layers"]]))
         n_rejected[0] += 1
       else:
@@ -267,6 +293,8 @@ def main():
     # non-quantization hyper-parameters untouched
     for a, b in zip(src_layers, q_layers):
       ka = {k: v for k, v in a["config"].items() if k not in ("activation",)}
+      if a["class_name"] == "ReLU" and b["class_name"] == "QActivation":
+        ka = {k: v for k, v in ka.items() if k not in ("max_value", "negative_slope", "threshold")}   # a quantized relu carries its own bound / slope
       kb = {k: v for k, v in b["config"].items() if k not in ("activation", "kernel_quantizer", "bias_quantizer", "depthwise_quantizer", "average_quantizer", "total_bits")}
       if ka != kb:
         rep.violation(f"hyperparams-{i}-{a['config']['name']}", f"layer {a['config']['name']}: non-quantization hyper-parameters changed", {"before": ka, "after": kb})
@@ -275,7 +303,7 @@ def main():
       cls, name, ub, act, kq, bq = layer_rec(a)
       lits.append(f"(L {cs(cls)} {cs(name)} {vlib.blit(ub)} {copt(act)} None None)")
     want = [layer_rec(b) + (str(b["config"].get("total_bits", "")),) for b in q_layers]
-    texts.append(f"(if model_rejected {vlib.blit(prefer)} {coq_dict(d)} [" + "; ".join(lits) + f"] then [\"REJECTED\"] else render_model_full {vlib.blit(prefer)} {coq_dict(d)} {cs(str(bits))} [" + "; ".join(lits) + "])")
+    texts.append(f"(if model_rejected_all {vlib.blit(prefer)} {coq_dict(d)} [" + "; ".join(lits) + f"] then [\"REJECTED\"] else render_model_all {vlib.blit(prefer)} {coq_dict(d)} {cs(str(bits))} [" + "; ".join(lits) + "])")
     items.append((i, d, bits, want, [a["config"]["name"] for a in src_layers]))
   U.quantized_model_from_json = orig
   # Coq prediction, compared as strings
